@@ -29,7 +29,7 @@ same oracle. json: random whole files (all optional fields, comments with JSON-s
 characters, key infos of every length mod 3, provider lists) -> to_string / to_string_pretty / to_writer / \
 to_writer_pretty -> from_str / from_reader == original; iter_payload() yields, per kind and in order, exactly the \
 payloads with the assertions' fields. non-trivial = >=2 filter kinds populated and a payload of a non-prefix kind \
-(drop-*), file with >=2 assertion kinds and a comment (json). Every prefix of a filter, assertion or payload is also built through new_relaxed and from_str_relaxed (from an address with host bits set), from_str, Deserialize and the generic constructor; all must equal the strictly constructed one.";
+(drop-*), file with >=2 assertion kinds and a comment (json). Every prefix of a filter, assertion or payload is also built through new_relaxed and from_str_relaxed (from an address with host bits set), from_str, Deserialize and the generic constructor; all must equal the strictly constructed one. drop-random aims origins at prefix filters at every pair of lengths (same bits, more specific by any number of bits, less specific, one of the filter's bits flipped) and lets filters carry a comment (not a criterion); router keys reach 1300 octets (dense at 250..262), provider sets the maximum of 16380; json also parses the file's JSON in a foreign spelling (members in another order, white space, \\uXXXX escapes; from_str and from_reader over a reader that hands the text out in pieces of 1..10000 octets): the same file and payload.";
 
 //------------ plain data ------------------------------------------------------
 
